@@ -73,7 +73,10 @@ AI = [0, 1, -1, 2, -2, 31, 32, 33, 255, 65535, -32768, MAXI, MINI, 0x55555555, i
 AJ = [0, 1, -1, 2, -2, 63, 64, 65, 0xffffffff, 1 << 32, -(1 << 31), MAXL, MINL, 0x5555555555555555,
       interp.s64(0xAAAAAAAAAAAAAAAA)]
 AI_SH = AI + [63, 64, 65]          # shift counts for the long shifts
-ALPHA = {"I": AI, "J": AJ, "S": AI_SH}
+AB = [0, 1, -1, 2, -2, 31, 32, 33, 127, -128, 85, -86, 64, -64, 100]
+ASH = [0, 1, -1, 2, -2, 31, 32, 33, 255, 32767, -32768, 127, -128, 0x5555, -0x5556]
+AC = [0, 1, 2, 31, 32, 33, 255, 65535, 32768, 32767, 127, 128, 0x5555, 0xAAAA, 65534]
+ALPHA = {"I": AI, "J": AJ, "s": AI_SH, "B": AB, "S": ASH, "C": AC}
 
 L8 = [0, 1, -1, 31, 32, 33, -128, 127]
 L16 = [0, 1, -1, 31, 32, 33, -128, 127, -32768, 32767]
@@ -158,7 +161,7 @@ def tier_a(thorough):
             mn = "%s-%s" % (op, ty)
             shift = op in ("shl", "shr", "ushr")
             params = "JI" if (T == "J" and shift) else T + T
-            alph = "JS" if params == "JI" else None
+            alph = "Js" if params == "JI" else None
             rt = ret_ins(T)
             add(mn, mn, params, T, nloc, lambda s, R, mn=mn, rt=rt: s.ins(mn, 0, R.a, R.b).ins(rt, 0), alph)
             add(mn + "/2addr", mn, params, T, nloc,
@@ -221,6 +224,22 @@ def tier_a(thorough):
         lambda s, R: s.ins("long-to-int", 0, R.a).ins("int-to-long", 0, 0).ins("return-wide", 0))
     add("int-to-long+add-long", "cast:int>long+add", "JI", "J", 4,
         lambda s, R: s.ins("int-to-long", 0, R.b).ins("add-long", 0, R.a, 0).ins("return-wide", 0))
+    # narrow parameter / return types (byte, short, char) around the casts
+    for c, T in (("byte", "B"), ("short", "S"), ("char", "C")):
+        mn = "int-to-" + c
+        add("sig:(II)%s:%s" % (T, mn), "sig." + c, "II", T, 2, lambda s, R, mn=mn: s.ins(mn, 0, R.a).ins("return", 0))
+        add("sig:(II)%s:add+%s" % (T, mn), "sig." + c, "II", T, 2,
+            lambda s, R, mn=mn: s.ins("add-int", 0, R.a, R.b).ins(mn, 0, 0).ins("return", 0))
+        add("sig:(%s%s)I:add" % (T, T), "sig." + c, T + T, "I", 2, lambda s, R: s.ins("add-int", 0, R.a, R.b).ins("return", 0))
+        add("sig:(%s%s)I:mul" % (T, T), "sig." + c, T + T, "I", 2, lambda s, R: s.ins("mul-int", 0, R.a, R.b).ins("return", 0))
+        add("sig:(%s%s)%s:return" % (T, T, T), "sig." + c, T + T, T, 2, lambda s, R: s.ins("return", R.b))
+        add("sig:(%sI)J:int-to-long" % T, "sig." + c, T + "I", "J", 2,
+            lambda s, R: s.ins("int-to-long", 0, R.a).ins("return-wide", 0))
+        add("sig:(%sI)I:ushr" % T, "sig." + c, T + "I", "I", 2, lambda s, R: s.ins("ushr-int", 0, R.a, R.b).ins("return", 0))
+        for c2, T2 in (("byte", "B"), ("short", "S"), ("char", "C")):
+            if c2 != c:
+                add("sig:(%sI)%s:int-to-%s" % (T, T2, c2), "sig." + c, T + "I", T2, 2,
+                    lambda s, R, c2=c2: s.ins("int-to-" + c2, 0, R.a).ins("return", 0))
     # constants
     consts = [("const/4", "I", [0, 1, -1, 7, -8]),
               ("const/16", "I", [0, 1, -1, 127, -128, 255, 32767, -32768]),
@@ -335,6 +354,52 @@ def tier_b(thorough):
                 pair = "%s%s,%s" % ("" if ty == "int" else "long.", n1, n2)
                 bases = sorted({_b_base(n1, ty), _b_base(n2, ty)} | ({"A:long-to-int"} if ty == "long" else set()))
                 P.append(Prog("B:%s:%s" % (pair, mode), "B:" + pair, T + T, T, nloc, body, bases=bases))
+    return P
+
+
+def tier_b_special(thorough):
+    """hand-written propagation hazards: copies, swaps, redefinition of a propagated source, dead throwing ops"""
+    P = []
+
+    def add(name, params, ret, nloc, body):
+        P.append(Prog("B:special.%s" % name, "B:special.%s" % name, params, ret, nloc, body))
+    add("swap", "II", "I", 2,
+        lambda s, R: s.ins("move", 0, R.a).ins("move", R.a, R.b).ins("move", R.b, 0).ins("sub-int", 0, R.a, R.b).ins("return", 0))
+    add("swap.long", "JJ", "J", 4,
+        lambda s, R: s.ins("move-wide", 0, R.a).ins("move-wide", R.a, R.b).ins("move-wide", R.b, 0)
+        .ins("sub-long", 0, R.a, R.b).ins("return-wide", 0))
+    add("redef-src.const", "II", "I", 2,
+        lambda s, R: s.ins("add-int", 0, R.a, R.b).ins("const/4", R.a, 0).ins("add-int", 0, 0, R.a).ins("return", 0))
+    add("redef-src.inc", "II", "I", 2,
+        lambda s, R: s.ins("add-int", 0, R.a, R.b).ins("add-int/lit8", R.a, R.a, 1).ins("mul-int", 0, 0, R.a).ins("return", 0))
+    add("postinc", "II", "I", 2,
+        lambda s, R: s.ins("move", 0, R.a).ins("add-int/lit8", R.a, R.a, 1).ins("mul-int", 0, 0, R.a).ins("return", 0))
+    add("preinc", "II", "I", 2,
+        lambda s, R: s.ins("add-int/lit8", R.a, R.a, 1).ins("move", 0, R.a).ins("mul-int", 0, 0, R.b).ins("return", 0))
+    add("copy-chain", "II", "I", 3,
+        lambda s, R: s.ins("move", 0, R.a).ins("move", 1, 0).ins("move", 2, 1).ins("sub-int", 0, 2, R.b).ins("return", 0))
+    add("multiuse", "II", "I", 2,
+        lambda s, R: s.ins("add-int", 0, R.a, R.b).ins("mul-int", 1, 0, 0).ins("sub-int", 1, 1, 0).ins("return", 1))
+    add("multiuse.div", "II", "I", 2,
+        lambda s, R: s.ins("div-int", 0, R.a, R.b).ins("add-int", 1, 0, 0).ins("return", 1))
+    add("reuse-reg-types", "II", "J", 2,
+        lambda s, R: s.ins("add-int", 0, R.a, R.b).ins("int-to-long", 0, 0).ins("return-wide", 0))
+    add("reuse-reg-unrelated", "II", "I", 2,
+        lambda s, R: s.ins("add-int", 0, R.a, R.b).ins("mul-int", 1, 0, R.a).ins("sub-int", 0, R.b, R.a)
+        .ins("xor-int", 0, 0, 1).ins("return", 0))
+    for op in ("div", "rem"):
+        add("dead-%s-int" % op, "II", "I", 2, lambda s, R, op=op: s.ins(op + "-int", 0, R.a, R.b).ins("return", R.a))
+        add("dead-%s-int/2addr" % op, "II", "I", 2,
+            lambda s, R, op=op: s.ins("move", 0, R.a).ins(op + "-int/2addr", 0, R.b).ins("return", R.a))
+        add("dead-%s-long" % op, "JJ", "J", 4, lambda s, R, op=op: s.ins(op + "-long", 0, R.a, R.b).ins("return-wide", R.a))
+        add("dead-%s-int/lit8.0" % op, "II", "I", 2,
+            lambda s, R, op=op: s.ins(op + "-int/lit8", 0, R.a, 0).ins("return", R.b))
+        add("dead-%s-int/lit16.0" % op, "II", "I", 2,
+            lambda s, R, op=op: s.ins(op + "-int/lit16", 0, R.a, 0).ins("return", R.b))
+        add("overwritten-%s-int" % op, "II", "I", 2,
+            lambda s, R, op=op: s.ins(op + "-int", 0, R.a, R.b).ins("const/4", 0, 3).ins("return", 0))
+        add("%s-then-redef" % op, "II", "I", 2,
+            lambda s, R, op=op: s.ins(op + "-int", 0, R.a, R.b).ins("const/4", R.b, 1).ins("add-int", 0, 0, R.b).ins("return", 0))
     return P
 
 
@@ -768,6 +833,191 @@ def sk_whilelong(opz):
     return body
 
 
+def sk_while_rot(v):
+    # javac's rotated layout: init; goto cond; body: ...; cond: if (continue) goto body
+    _, init, op, xy, step = v
+    z = op.endswith("z")
+    cont = NEG[op[:-1] if z else op] + ("z" if z else "")
+
+    def body(s, R):
+        Lbody, Lcond = D.Label(), D.Label()
+        _loop_init(s, R, init)
+        s.ins("goto", Lcond)
+        s.label(Lbody)
+        _loop_step(s, 1)
+        s.ins("add-int/lit8", 1, 1, step)
+        s.label(Lcond)
+        emit_if(s, cont, xy[0], xy[1], Lbody)
+        s.ins("return", 0)
+    return body
+
+
+def sk_divif(op, dop):
+    # t = a / b; if (a <op> b) return 5; return t + 1;      (the quotient is not used on one path)
+    def body(s, R):
+        L = D.Label()
+        s.ins(dop + "-int", 0, R.a, R.b)
+        emit_if(s, op, R.a, R.b, L)
+        s.ins("add-int/lit8", 0, 0, 1)
+        s.ins("return", 0)
+        s.label(L)
+        s.ins("const/4", 1, 5)
+        s.ins("return", 1)
+    return body
+
+
+def sk_divloop(dop, use):
+    # t = b / a; n = a & 7; r = b; while (n > 0) { r = r*3 + t; n--; } return r      (loop may run zero times)
+    def body(s, R):
+        Ltop, Lexit = D.Label(), D.Label()
+        s.ins(dop + "-int", 3, R.b, R.a)
+        s.ins("move", 0, R.b)
+        s.ins("and-int/lit8", 1, R.a, 7)
+        s.label(Ltop)
+        s.ins("if-lez", 1, Lexit)
+        _loop_step(s, 3)
+        s.ins("add-int/lit8", 1, 1, -1)
+        s.ins("goto", Ltop)
+        s.label(Lexit)
+        if use == "after":
+            s.ins("add-int/2addr", 0, 3)
+        s.ins("return", 0)
+    return body
+
+
+def sk_nestedif(shape, ops):
+    o1, o2 = ops
+
+    def body(s, R):
+        L1, L2, Lend = D.Label(), D.Label(), D.Label()
+        s.ins("const/4", 1, 1)
+        if shape == "ifif":            # if (c1) { if (c2) X else Y } else Z
+            emit_if(s, o1, R.a, R.b, L1)
+            emit_if(s, o2, R.b, 1, L2)
+            _then(s, R)
+            s.ins("goto", Lend)
+            s.label(L2)
+            _else(s, R)
+            s.ins("goto", Lend)
+            s.label(L1)
+            s.ins("mul-int/lit8", 0, R.a, 11)
+        else:                          # if (c1) X else if (c2) Y else Z
+            emit_if(s, o1, R.a, R.b, L1)
+            _then(s, R)
+            s.ins("goto", Lend)
+            s.label(L1)
+            emit_if(s, o2, R.b, 1, L2)
+            _else(s, R)
+            s.ins("goto", Lend)
+            s.label(L2)
+            s.ins("mul-int/lit8", 0, R.a, 11)
+        s.label(Lend)
+        s.ins("return", 0)
+    return body
+
+
+def sk_midbreak(op, xy):
+    # for (;;) { r = r*3 + i; if (i <op> n) break; i++; r ^= a; }
+    def body(s, R):
+        Ltop, Lexit = D.Label(), D.Label()
+        s.ins("move", 0, R.b)
+        s.ins("const/4", 1, 0)
+        s.ins("and-int/lit8", 2, R.a, 7)
+        s.label(Ltop)
+        _loop_step(s, 1)
+        emit_if(s, op, xy[0], xy[1], Lexit)
+        s.ins("add-int/lit8", 1, 1, 1)
+        s.ins("xor-int/2addr", 0, R.a)
+        s.ins("goto", Ltop)
+        s.label(Lexit)
+        s.ins("return", 0)
+    return body
+
+
+def sk_fib(layout):
+    # x = a; y = b; n = a & 7; while (n > 0) { t = x + y; x = y; y = t; n--; } return x     (simultaneous update)
+    def body(s, R):
+        Ltop, Lexit, Lcond = D.Label(), D.Label(), D.Label()
+        s.ins("move", 0, R.a)
+        s.ins("move", 1, R.b)
+        s.ins("and-int/lit8", 2, R.a, 7)
+        if layout == "top":
+            s.label(Ltop)
+            s.ins("if-lez", 2, Lexit)
+            s.ins("add-int", 3, 0, 1)
+            s.ins("move", 0, 1)
+            s.ins("move", 1, 3)
+            s.ins("add-int/lit8", 2, 2, -1)
+            s.ins("goto", Ltop)
+            s.label(Lexit)
+        else:
+            s.ins("goto", Lcond)
+            s.label(Ltop)
+            s.ins("add-int", 3, 0, 1)
+            s.ins("move", 0, 1)
+            s.ins("move", 1, 3)
+            s.ins("add-int/lit8", 2, 2, -1)
+            s.label(Lcond)
+            s.ins("if-gtz", 2, Ltop)
+        s.ins("return", 0)
+    return body
+
+
+def sk_switch_inloop(kind):
+    # for (i = 0; i < n; i++) switch (i & 3) { case 0: r += 10; break; case 1: r += 20; break; default: r += 500; }
+    def body(s, R):
+        Ltop, Lexit, Linc, Lsw, Lpay, L0, L1 = (D.Label() for _ in range(7))
+        s.ins("move", 0, R.b)
+        s.ins("const/4", 1, 0)
+        s.ins("and-int/lit8", 2, R.a, 7)
+        s.label(Ltop)
+        s.ins("if-ge", 1, 2, Lexit)
+        s.ins("and-int/lit8", 3, 1, 3)
+        s.label(Lsw)
+        s.ins(kind + "-switch", 3, Lpay)
+        s.ins("add-int/lit16", 0, 0, 500)
+        s.label(Linc)
+        s.ins("add-int/lit8", 1, 1, 1)
+        s.ins("goto", Ltop)
+        s.label(L0)
+        s.ins("add-int/lit8", 0, 0, 10)
+        s.ins("goto", Linc)
+        s.label(L1)
+        s.ins("add-int/lit8", 0, 0, 20)
+        s.ins("goto", Linc)
+        s.label(Lexit)
+        s.ins("return", 0)
+        s.align4()
+        s.label(Lpay)
+        if kind == "packed":
+            s.packed(Lsw, 0, [L0, L1])
+        else:
+            s.sparse(Lsw, [0, 1], [L0, L1])
+    return body
+
+
+def sk_sc2long(ops, t1, has_else):
+    # if (a <c1> b  &&/||  a <c2> 0L) X else Y   on longs: cmp-long + if-*z pairs; v0 cmp, v2 result, v4 zero
+    def body(s, R):
+        Lthen, Lelse, Lend = D.Label(), D.Label(), D.Label()
+        s.ins("const-wide/16", 4, 0)
+        if not has_else:
+            s.ins("const-wide/16", 2, 1000)
+        s.ins("cmp-long", 0, R.a, R.b)
+        s.ins("if-" + ops[0], 0, Lthen if t1 == "T" else (Lelse if has_else else Lend))
+        s.ins("cmp-long", 0, R.a, 4)
+        s.ins("if-" + ops[1], 0, Lelse if has_else else Lend)
+        s.label(Lthen)
+        s.ins("add-long", 2, R.a, R.b)
+        if has_else:
+            s.ins("goto", Lend)
+            s.label(Lelse)
+            s.ins("xor-long", 2, R.a, R.b)
+        s.label(Lend)
+        s.ins("return-wide", 2)
+    return body
+
+
 # switches: v0 = r, v1 = key
 SW_KEYS = {"a": None, "and3": ("and-int/lit8", 3), "sub30": ("add-int/lit8", -30), "rem5": ("rem-int/lit8", 5)}
 
@@ -932,6 +1182,30 @@ def tier_c(thorough):
         add("if-loop:" + op, "if-loop", sk_loopif(op, "if-loop"))
     for op in ("lez", "eqz", "ltz"):
         add("whilelong:" + op, "whilelong", sk_whilelong(op), "JJ", "J", 8)
+    for v in _while_variants():
+        add("while.rot:" + v[0], "while.rot", sk_while_rot(v))
+    for op in IF12:
+        add("divif:div," + op, "divif", sk_divif(op, "div"))
+        add("divif:rem," + op, "divif", sk_divif(op, "rem"))
+    for dop in ("div", "rem"):
+        for use in ("inside", "after"):
+            add("divloop:%s,%s" % (dop, use), "divloop", sk_divloop(dop, use))
+    nops = list(itertools.product(IF12, repeat=2)) if thorough else [(IF12[i], IF12[(i * 5 + 7) % 12]) for i in range(12)]
+    for shape in ("ifif", "elseif"):
+        for ops in nops:
+            add("%s:%s" % (shape, ",".join(ops)), shape, sk_nestedif(shape, ops))
+    for op, xy in (("ge", (1, 2)), ("eq", (1, 2)), ("gt", (1, 2)), ("le", (2, 1)), ("lt", (2, 1)), ("eq", (2, 1))):
+        add("midbreak:%s.%d%d" % (op, xy[0], xy[1]), "midbreak", sk_midbreak(op, xy))
+    add("fib:top", "fib", sk_fib("top"))
+    add("fib:rot", "fib", sk_fib("rot"))
+    add("switch.inloop:packed", "switch.inloop", sk_switch_inloop("packed"))
+    add("switch.inloop:sparse", "switch.inloop", sk_switch_inloop("sparse"))
+    lops = list(itertools.product(IFZ, repeat=2)) if thorough else [(IFZ[i], IFZ[(i * 5 + 1) % 6]) for i in range(6)]
+    for t1 in SC2_SHAPES:
+        for els in (False, True):
+            for ops in lops:
+                sid = "sc2long.%s.%s" % (t1, "else" if els else "noelse")
+                add("%s:%s" % (sid, ",".join(ops)), sid, sk_sc2long(ops, t1, els), "JJ", "J", 6)
     # switches
     for pid, sid, args in _switch_catalogue(thorough):
         add("switch." + pid, "switch." + sid, sk_switch(*args))
@@ -944,7 +1218,7 @@ _CAT = {}
 def catalogue(thorough):
     c = _CAT.get(thorough)
     if c is None:
-        c = tier_a(thorough) + tier_b(thorough) + tier_c(thorough)
+        c = tier_a(thorough) + tier_b_special(thorough) + tier_b(thorough) + tier_c(thorough)
         ids = set()
         for p in c:
             assert p.pid not in ids, p.pid
@@ -954,7 +1228,7 @@ def catalogue(thorough):
 
 
 # ======================================================================================== judging
-JT = {"I": "int", "J": "long"}
+JT = {"I": "int", "J": "long", "B": "byte", "S": "short", "C": "char", "s": "int"}
 STEP_BUDGET = 5000
 JAVA_TIMEOUT = 300          # hang guard only (a whole shard runs in well under a second)
 
@@ -1006,15 +1280,16 @@ def decompile(progs):
 
 
 def _lit(v, T):
+    if T in "BSC":
+        return "(%s) %d" % (JT[T], v)
     return str(v) + ("L" if T == "J" else "")
 
 
 def java_file(cls, progs, srcs, idxs):
     """-> (text, ranges) ; ranges[i] = (first_line, last_line) 1-based of method i's text"""
     lines = ["class %s {" % cls]
-    for name, T in (("AI", "I"), ("AJ", "J"), ("AS", "S")):
-        t = "long" if T == "J" else "int"
-        lines.append("static final %s[] %s = {%s};" % (t, name, ", ".join(_lit(v, T) for v in ALPHA[T])))
+    for T in ("I", "J", "s", "B", "S", "C"):
+        lines.append("static final %s[] A%s = {%s};" % (JT[T], T, ", ".join(_lit(v, T) for v in ALPHA[T])))
     ranges = {}
     for i in idxs:
         body = srcs[i].strip("\n").split("\n")
@@ -1022,11 +1297,10 @@ def java_file(cls, progs, srcs, idxs):
         lines += body
     for i in idxs:
         p = progs[i]
-        arr = {"I": "AI", "J": "AJ", "S": "AS"}
         t0, t1 = JT[p.params[0]], JT[p.params[1]]
-        lines.append("static void r%d(StringBuilder sb){ for(%s x: %s) for(%s y: %s){ try{ sb.append(m%d(x,y)); } "
+        lines.append("static void r%d(StringBuilder sb){ for(%s x: A%s) for(%s y: A%s){ try{ sb.append((long) m%d(x,y)); } "
                      "catch(Throwable t){ sb.append(t.getClass().getName()); } sb.append(' '); } }"
-                     % (i, t0, arr[p.alph[0]], t1, arr[p.alph[1]], i))
+                     % (i, t0, p.alph[0], t1, p.alph[1], i))
     chunk = 400
     groups = [idxs[k:k + chunk] for k in range(0, len(idxs), chunk)]
     for g, ids in enumerate(groups):
